@@ -19,6 +19,9 @@ CONSTANTS
   EmitDyn = FALSE
   MaxHist = 0
   MaxReorders = 0
+  NameOrder <- NameOrderA
+  BuildCfgs <- BuildCfgsA
+  IntegrCfgs <- IntegrCfgsNone
   UnitCfgs <- UnitsNone
   Times <- TimesA
   Tol <- TolA
